@@ -1199,3 +1199,143 @@ Proof.
   pose proof (pairs_go_true _ _ _ _ Hg) as F. clear Hg H.
   induction F as [|r o rs os [m Hm] F IH]; constructor; [eapply hwire_one_meaning; exact Hm|exact IH].
 Qed.
+
+(* ---- source ids: density and the high-water bound (which = 14) ------------------------------------------------ *)
+Definition id_inv2 (p : idpool) : Prop :=
+  id_inv p /\ Forall (fun x => 0 <= x) (free p ++ held p) /\ seq p = Z.of_nat (length (free p ++ held p)).
+
+Lemma id_step_inv2 p o : id_inv2 p -> id_inv2 (fst (id_step p o)).
+Proof.
+  intros (I & NN & LEN). split; [apply id_step_inv; exact I|].
+  destruct (id_step_perm p o) as (extra & P & [[E S]|(E & S & F)]); subst extra; cbn [app] in P.
+  - split.
+    + eapply Permutation_Forall; [apply Permutation_sym, P|exact NN].
+    + rewrite S, LEN. f_equal. symmetry. apply Permutation_length, P.
+  - split.
+    + eapply Permutation_Forall; [apply Permutation_sym, P|]. constructor; [|exact NN]. rewrite LEN. lia.
+    + rewrite S, LEN. rewrite (Permutation_length P). cbn [length]. lia.
+Qed.
+
+Lemma id_run_inv2 ops : forall p, id_inv2 p -> id_inv2 (fst (id_run p ops)).
+Proof.
+  induction ops as [|o r IH]; intros p H; cbn [id_run]; [exact H|].
+  pose proof (id_step_inv2 p o H) as H1. destruct (id_step p o) as [p1 x]. cbn [fst] in H1.
+  specialize (IH p1 H1). destruct (id_run p1 r) as [p2 xs]. exact IH.
+Qed.
+
+Lemma id_inv2_0 : id_inv2 idpool0.
+Proof. split; [exact id_inv0|]. split; cbn; [constructor|reflexivity]. Qed.
+
+(* after any get/put history: the ids that exist (free or held) are pairwise different, are exactly as many as the
+   counter says and lie in [0, seq): the ids handed out so far are 0 .. seq-1, each either free or held by ONE request *)
+Lemma http_sourceid_dense ops :
+  let p := fst (id_run idpool0 ops) in
+  NoDup (free p ++ held p) /\
+  (forall x, In x (free p ++ held p) -> 0 <= x < seq p) /\
+  seq p = Z.of_nat (length (free p) + length (held p)).
+Proof.
+  cbn. destruct (id_run_inv2 ops _ id_inv2_0) as ((ND & LT) & NN & LEN).
+  split; [exact ND|]. split.
+  - intros x H. rewrite Forall_forall in LT, NN. split; [apply NN, H|apply LT, H].
+  - rewrite LEN, app_length. reflexivity.
+Qed.
+
+(* [held_le n p ops]: during the run of ops from p never more than n requests hold an id at once *)
+Fixpoint held_le (n : nat) (p : idpool) (ops : list idop) : Prop :=
+  (length (held p) <= n)%nat /\
+  match ops with
+  | [] => True
+  | o :: r => held_le n (fst (id_step p o)) r
+  end.
+
+Lemma held_le_head n p ops : held_le n p ops -> (length (held p) <= n)%nat.
+Proof. destruct ops; intros [H _]; exact H. Qed.
+
+Lemma id_run_high_water n ops : forall p,
+  id_inv2 p -> seq p <= Z.of_nat n -> held_le n p ops -> seq (fst (id_run p ops)) <= Z.of_nat n.
+Proof.
+  induction ops as [|o r IH]; intros p I S H; cbn [id_run]; [exact S|].
+  destruct H as [_ H].
+  pose proof (id_step_inv2 p o I) as I1.
+  assert (S1 : seq (fst (id_step p o)) <= Z.of_nat n).
+  { pose proof (held_le_head _ _ _ H) as HL.
+    destruct I as (_ & _ & LEN).
+    destruct o as [|k]; cbn [id_step] in *.
+    - destruct (free p) as [|f fr] eqn:Hf; cbn [fst free held seq] in *; [|exact S].
+      rewrite app_length in HL. cbn [length app] in *. lia.
+    - destruct (nth_error (held p) k); cbn [fst seq]; exact S. }
+  destruct (id_step p o) as [p1 x]. cbn [fst] in *.
+  specialize (IH p1 I1 S1 H). destruct (id_run p1 r) as [p2 xs]. exact IH.
+Qed.
+
+(* the high-water bound: if never more than n requests were live at once on an instance, every id that was ever handed
+   out - in particular every id held now - is below n; with the density above: n requests live at once on such an
+   instance hold exactly the ids 0 .. n-1 *)
+Lemma http_sourceid_high_water n ops :
+  held_le n idpool0 ops ->
+  let p := fst (id_run idpool0 ops) in
+  seq p <= Z.of_nat n /\ NoDup (held p) /\ (forall x, In x (held p) -> 0 <= x < Z.of_nat n).
+Proof.
+  intros H. cbn.
+  pose proof (id_run_high_water n ops idpool0 id_inv2_0 ltac:(cbn; lia) H) as S.
+  destruct (http_sourceid_dense ops) as (ND & R & _). cbn in ND, R.
+  destruct (http_sourceid_exclusive ops) as (NDh & _). cbn in NDh.
+  split; [exact S|]. split; [exact NDh|].
+  intros x Hx. specialize (R x (in_or_app _ _ _ (or_intror Hx))). lia.
+Qed.
+
+(* ---- which = 14: what the burst judgement means ------------------------------------------------------------------- *)
+Lemma z_nodup_sound l : z_nodup l = true -> NoDup l.
+Proof.
+  induction l as [|x r IH]; cbn [z_nodup]; intros H; [constructor|].
+  apply andb_true_iff in H. destruct H as [H1 H2]. constructor; [|exact (IH H2)].
+  intros Hin. apply negb_true_iff in H1.
+  assert (E : existsb (Z.eqb x) r = true) by (apply existsb_exists; exists x; split; [exact Hin|apply Z.eqb_refl]).
+  congruence.
+Qed.
+
+Lemma remove_first_perm e : forall l l', remove_first e l = Some l' -> Permutation l (e :: l').
+Proof.
+  induction l as [|x r IH]; cbn [remove_first]; intros l' H; [discriminate|].
+  destruct (sx_eqb e x) eqn:E.
+  - inversion H; subst. apply http_sx_eqb_sound in E. subst. reflexivity.
+  - destruct (remove_first e r) as [r'|] eqn:R; [|discriminate]. inversion H; subst.
+    rewrite (IH _ eq_refl). apply perm_swap.
+Qed.
+
+Lemma perm_match_sound : forall ex obs, perm_match ex obs = true -> Permutation ex obs.
+Proof.
+  induction ex as [|e r IH]; cbn [perm_match]; intros obs H.
+  - destruct obs; [constructor|discriminate].
+  - destruct (remove_first e obs) as [o'|] eqn:R; [|discriminate].
+    rewrite (remove_first_perm _ _ _ R). constructor. exact (IH _ H).
+Qed.
+
+Lemma opt_map_z_of_sx : forall ids zs, opt_map z_of_sx ids = Some zs -> ids = map SZ zs.
+Proof.
+  induction ids as [|i r IH]; cbn [opt_map]; intros zs H; [inversion H; reflexivity|].
+  destruct i as [z|b|l]; cbn [z_of_sx] in H; try discriminate.
+  destruct (opt_map z_of_sx r) as [zr|]; [|discriminate]. inversion H; subst. cbn. f_equal. exact (IH _ eq_refl).
+Qed.
+
+(* an accepted phase observation: every request was answered 200; the source ids seen by controller.In are pairwise
+   different, one per request, all in [0, hw); and the event sequences under the source ids are - up to the order of
+   the ids - exactly the newline splits of the bodies: no source id carried lines of two bodies *)
+Lemma burst_phase_sound hw reqs o :
+  burst_phase_ok hw reqs o = true ->
+  exists zs groups,
+    o = SL [SL (map (fun _ => SZ 200) reqs); SL (map SZ zs); SL groups] /\
+    NoDup zs /\ length zs = length reqs /\ (forall z, In z zs -> 0 <= z < hw) /\
+    Permutation (map burst_expected reqs) groups.
+Proof.
+  unfold burst_phase_ok. intros H.
+  destruct o as [?|?|[|[?|?|sts] [|[?|?|ids] [|[?|?|groups] [|? ?]]]]]; try discriminate.
+  destruct (opt_map z_of_sx ids) as [zs|] eqn:Z; [|discriminate].
+  repeat (apply andb_true_iff in H; destruct H as [H ?]).
+  exists zs, groups. apply http_sx_eqb_sound in H. inversion H; subst.
+  rewrite (opt_map_z_of_sx _ _ Z). split; [reflexivity|].
+  split; [apply z_nodup_sound; assumption|]. split; [apply Nat.eqb_eq; assumption|].
+  split; [|apply perm_match_sound; assumption].
+  intros z Hz. match goal with F : forallb _ zs = true |- _ => rewrite forallb_forall in F; specialize (F z Hz) end.
+  apply andb_true_iff in H2. lia.
+Qed.
